@@ -5,7 +5,7 @@
 From Coq Require Import List Arith Permutation ZArith.
 From Coq Require Import Sorted.
 From TLV Require Import Base.Shape Base.PyList Base.Tensor Model.Base Model.BaseExt Model.BasePy Model.BasePyCore
-  Proofs.BaseProofs Proofs.BaseProofs2 Proofs.BaseProofs3 Proofs.BaseProofs4 Proofs.BaseProofs5 Proofs.BaseProofs6 Proofs.BaseProofs7 Proofs.BaseProofs8 Proofs.BaseProofs9 Proofs.BaseProofs10 Proofs.BaseProofs11 Proofs.BaseProofs12 Proofs.BaseProofs13 Proofs.BaseProofs14 Proofs.BaseProofs15.
+  Proofs.BaseProofs Proofs.BaseProofs2 Proofs.BaseProofs3 Proofs.BaseProofs4 Proofs.BaseProofs5 Proofs.BaseProofs6 Proofs.BaseProofs7 Proofs.BaseProofs8 Proofs.BaseProofs9 Proofs.BaseProofs10 Proofs.BaseProofs11 Proofs.BaseProofs12 Proofs.BaseProofs13 Proofs.BaseProofs14 Proofs.BaseProofs15 Proofs.BaseProofs16.
 Import ListNotations.
 
 Theorem C01_fold_unfold : forall (A : Type) (d : A) (t : tensor A) (m : nat),
@@ -554,6 +554,24 @@ Theorem C01_g_typed_entries : forall (A : Type) (d : A) (D : Type) (a : ndarray 
   (forall x y, g_moveaxis_generic (plain d) (arr a) x y = rmap arr (g_moveaxis_generic (typed d D) a x y)).
 Proof. exact @g_typed_entries. Qed.
 Print Assumptions C01_g_typed_entries.
+
+(* the headline round trips on arrays that carry a dtype tag (statement-by-statement model, signed modes): refolding
+   returns the ORIGINAL array - same dtype tag, same shape, same entries in the same places *)
+Theorem C01_g_typed_fold_unfold : forall (A : Type) (d : A) (D : Type) (a u : ndarray A D) (m : Z),
+  wf (arr a) -> g_unfold (typed d D) a m = Ok u -> g_fold (typed d D) u m (map Z.of_nat (shape (arr a))) = Ok a.
+Proof. exact @g_typed_fold_unfold. Qed.
+Print Assumptions C01_g_typed_fold_unfold.
+
+Theorem C01_g_typed_partial_fold_unfold : forall (A : Type) (d : A) (D : Type) (a u : ndarray A D) (m : Z) (sb se : nat) (rav : bool),
+  wf (arr a) -> g_partial_unfold (typed d D) a m (Z.of_nat sb) (Z.of_nat se) rav = Ok u ->
+  g_partial_fold (typed d D) u m (map Z.of_nat (shape (arr a))) (Z.of_nat sb) (Z.of_nat se) = Ok a.
+Proof. exact @g_typed_partial_fold_unfold. Qed.
+Print Assumptions C01_g_typed_partial_fold_unfold.
+
+Theorem C01_g_typed_vec_roundtrip : forall (A : Type) (d : A) (D : Type) (a v : ndarray A D),
+  wf (arr a) -> g_tensor_to_vec (typed d D) a = Ok v -> g_vec_to_tensor (typed d D) v (map Z.of_nat (shape (arr a))) = Ok a.
+Proof. exact @g_typed_vec_roundtrip. Qed.
+Print Assumptions C01_g_typed_vec_roundtrip.
 
 Example C01_nonvacuous_typed :
   let a := mkarr 5 (mk [2;3] (seq 0 6)) in
